@@ -452,6 +452,8 @@ func init() {
 	add("C09.accept.rrlen", "C09.accept", bin, "rr := make([]bitio.ReadAtSeeker, 0, len(vv))", "rr := make([]bitio.ReadAtSeeker, len(vv))", "toBitReaderEx:concat")
 	add("C09.unit.keypad", "C09.unit", bin, "return Binary{br: b.br, r: b.r, unit: 1}", "return Binary{br: b.br, r: b.r, unit: 1, pad: b.pad}", "JQValueKey:bits")
 	add("C09.unit.slicepad", "C09.unit", bin, "\t\tunit: b.unit,\n\t}\n}\nfunc (b Binary) JQValueKey", "\t\tunit: b.unit,\n\t\tpad:  b.pad,\n\t}\n}\nfunc (b Binary) JQValueKey", "JQValueSlice")
+	add("C09.unit.sliceshortcut", "C09.unit", bin, "\trStart := int64(start * b.unit)\n", "\tif start == 0 && end == b.JQValueLength().(int) {\n\t\treturn b\n\t}\n\trStart := int64(start * b.unit)\n", "returns:Binary).JQValueSlice")
+	add("C09.unit.emptynew", "C09.unit", bin, "\treturn Binary{\n\t\tbr:   br,\n\t\tr:    ranges.Range{Start: 0, Len: l},", "\tif l == 0 {\n\t\treturn Binary{}, nil\n\t}\n\treturn Binary{\n\t\tbr:   br,\n\t\tr:    ranges.Range{Start: 0, Len: l},", "returns:pkg/interp.NewBinaryFromBitReader")
 	add("C09.unit.tobinary", "C09.unit", bin, "func (b Binary) ToBinary() (Binary, error) {\n\treturn b, nil", "func (b Binary) ToBinary() (Binary, error) {\n\treturn Binary{br: b.br, r: b.r, unit: 8}, nil", "Binary.ToBinary")
 	add("C09.num.tostring", "C09.num", bin, "func (b Binary) JQValueToString() any {\n\treturn b.JQValueToGoJQ()", "func (b Binary) JQValueToString() any {\n\treturn b.JQValueToNumber()", "JQValueToString")
 	add("C09.num.indexreturn", "C09.num", bin, "\textraBits := uint((8 - b.unit%8) % 8)\n", "\tif buf.Len() == 0 {\n\t\treturn nil\n\t}\n\textraBits := uint((8 - b.unit%8) % 8)\n", "JQValueIndex:returns")
